@@ -5,12 +5,12 @@ import random
 from .. import tlc, replay_engine, trace_engine
 from ..tlc import RawTLA, MachineryError
 
-MODULES = {"LwRing", "LwMatrix", "LwCircuitDefs", "LwCircuit"}
+MODULES = {"LwRing", "LwMatrix", "LwFock", "LwCircuitDefs", "LwCircuit"}
 DEFAULTS = dict(Scenario="single", NUs={3}, PNu=3, NObj=1, Numeric=True, MaxLen=2, MaxRej=0, MaxAnc=0,
                 Kinds={"bs"}, BadModes=RawTLA("{}"), Rids={1}, Convs={"Rx"}, Lqs={0}, Pids={1}, LossQs={1}, BadVals=False,
                 SwapLevel=0, UIds={"H"}, HeraldNs={0, 1}, Targets={1}, AddPairs=RawTLA("{}"), TmplLoss=False,
                 Ordered=False, MaxHer=(2, 2, 2, 2), MaxAdds=3, RejLast=True, MaxComp=99, NPar=0, ParKinds=(), ParInit=(), ParVals=RawTLA("{}"),
-                DispArgs=RawTLA("{}"), ModeCap=99, DispMin=0)
+                DispArgs=RawTLA("{}"), ModeCap=99, DispMin=0, MaxPhot=2, PSU=RawTLA("{{}}"))
 
 
 def consts_of(**kw):
@@ -28,7 +28,7 @@ def handle(chk, r, name, mine, nontrivial_fn=None):
         chk.drift.append(r["drift"])
     n = 0
     for clause, step, detail in r["findings"]:
-        if clause in mine:
+        if clause.split("/")[0] in mine:
             n += chk.violation(clause, detail, script={"module": "LwCircuit", "config": name, "ctx": r.get("ctx"), "prog": prog, "step": step,
                                                        "init": r.get("init"), "calls": prog_to_calls(prog)},
                                sig={"clause": clause})
